@@ -57,6 +57,10 @@ def configs(tier):
     for first, main, depth in (([4], [8], 1), ([8], [4], 1)) + (() if tier == "quick" else (([8], [16], 2), ([4, 4], [8, 8], 1), ([16], [8], 2))):
         out.append(dict(kind="mg_sizes", first=first, main=main, depth=depth))
         out.append(dict(kind="jacobi_sizes", first=first, main=main))
+    # one solver object used on arrays of the SAME shape and another dtype (work arrays kept between calls)
+    for first, main in (("float32", "float64"), ("float64", "float32"), ("int64", "float64")):
+        for via in ("jacobi", "h1_default"):
+            out.append(dict(kind="jacobi_dtypes", first=first, main=main, via=via))
     # one TVD object applied twice (options read from the object must still be there on the second call)
     for iso in (False, True):
         out.append(dict(kind="tvd_object", shape="2x3", isotropic=iso))
@@ -68,6 +72,49 @@ def configs(tier):
         for method in ("newton", "bregman"):
             out.append(dict(kind="wasserstein_setup", gshape=shp, method=method))
     return out
+
+
+def validate_always(cfg):
+    return cfg["kind"] == "jacobi_dtypes"  # real dtypes: evaluated on the plain import
+
+
+def body_dtypes(cfg, da):
+    S.claim("configuration_reached", True)
+    if S.instrumented():
+        return
+    rng = np.random.default_rng(3)
+    a = (rng.integers(-40, 40, size=(5, 4)) / 8.0)
+    b = (rng.integers(-40, 40, size=(5, 4)) / 3.0)
+    first = (a * 8).astype(cfg["first"]) if cfg["first"].startswith("int") else a.astype(cfg["first"])
+    main = b.astype(cfg["main"])
+    if cfg["via"] == "jacobi":
+        J = da.Jacobi(maxiter=3, dim=2, mass_coeff=1.0, diffusion_coeff=0.5)
+        try:
+            J(first.copy(), first.copy(), h=0.5)
+        except Exception:
+            pass  # what the earlier call does with its own array is not the subject
+        got = J(main.copy(), main.copy(), h=0.5)
+        ref = da.Jacobi(maxiter=3, dim=2, mass_coeff=1.0, diffusion_coeff=0.5)(main.copy(), main.copy(), h=0.5)
+    else:
+        kw = dict(mu=0.5, omega=1.0, dim=2)
+        try:
+            da.H1_regularization(first.copy(), **kw)
+        except Exception:
+            pass
+        got = da.H1_regularization(main.copy(), **kw)
+        import base64
+        import os
+        import pickle
+        import subprocess
+        import sys
+
+        code = ("import sys,pickle,base64,numpy as np,darsia as da;"
+                "m,kw=pickle.loads(base64.b64decode(sys.argv[1]));"
+                "sys.stdout.buffer.write(base64.b64encode(pickle.dumps(np.asarray(da.H1_regularization(m,**kw)))))")
+        out = subprocess.run([sys.executable, "-c", code, base64.b64encode(pickle.dumps((main.copy(), kw))).decode()], capture_output=True, check=True, env=dict(os.environ, PYTHONPATH=os.pathsep.join(p for p in sys.path if p))).stdout
+        ref = pickle.loads(base64.b64decode(out))  # the same call as the first one of a fresh process
+    got, ref = np.asarray(got), np.asarray(ref)
+    S.claim("result_on_this_array_is_that_of_an_unused_solver", bool(got.dtype == ref.dtype and got.shape == ref.shape and np.array_equal(got, ref)))
 
 
 def install_stubs():
@@ -194,6 +241,8 @@ def body(cfg):
     k = cfg["kind"]
     if k == "anderson":
         return body_anderson(cfg, da)
+    if k == "jacobi_dtypes":
+        return body_dtypes(cfg, da)
     if k in ("mg_sizes", "jacobi_sizes"):
         return body_sizes(cfg, da)
     if k == "wasserstein_setup":
